@@ -414,4 +414,134 @@ pub(crate) mod verif_pc {
         kani::cover!(r_sync && !s_sync, "spectator still synchronizing");
         core::mem::forget(s);
     }
+
+    // ------------------------------------------------------------------ the tick's glue, piece by piece (C02, C04)
+    // A whole advance_frame tick exceeds the symbolic executor (probes/attempted); its glue functions are
+    // decided one at a time, the callees that are the subject of other harnesses being stubbed.
+
+    use std::sync::atomic::{AtomicI32, AtomicUsize, Ordering};
+    static ADJ_CALLS: AtomicUsize = AtomicUsize::new(0);
+    static ADJ_FIRST: AtomicI32 = AtomicI32::new(-7);
+    static ADJ_CONF: AtomicI32 = AtomicI32::new(-7);
+    fn stub_adjust<T: Config>(_this: &mut P2PSession<T>, first_incorrect: Frame, min_confirmed: Frame, _requests: &mut Vec<GgrsRequest<T>>) {
+        ADJ_CALLS.store(ADJ_CALLS.load(Ordering::Relaxed) + 1, Ordering::Relaxed);
+        ADJ_FIRST.store(first_incorrect, Ordering::Relaxed);
+        ADJ_CONF.store(min_confirmed, Ordering::Relaxed);
+    }
+    fn stub_noop_rollback<T: Config>(_this: &mut P2PSession<T>, _confirmed: Frame, _requests: &mut Vec<GgrsRequest<T>>) {}
+    fn stub_noop_spectators<T: Config>(_this: &mut P2PSession<T>, _confirmed: Frame) {}
+    fn stub_register<T: Config>(this: &mut P2PSession<T>) {
+        // what register_local_inputs does to the bookkeeping the gate reads (pc_register_local_inputs decides the rest)
+        let c = this.sync_layer.current_frame();
+        this.local_connect_status[0].last_frame = c;
+    }
+
+    /// handle_rollback_and_save (dense saving): a rollback is started iff a misprediction or a pending
+    /// disconnect frame exists, from the EARLIEST such frame, the pending disconnect frame is consumed
+    /// by it - and whatever happened, the call ends with a SaveGameState for the current frame (a
+    /// frame that can still be rolled back to always has a saved state, also when the previous tick
+    /// stalled on the same frame).
+    #[kani::proof]
+    #[kani::unwind(6)]
+    #[kani::stub(alloc::fmt::format, stub_format)]
+    #[kani::stub(crate::sessions::p2p_session::P2PSession::adjust_gamestate, stub_adjust)]
+    fn pc_rollback_and_save_dense() {
+        let mut s = mk_session_noep::<CfgRL>(2, false, 0, DesyncDetection::Off);
+        let c: Frame = kani::any();
+        kani::assume(c >= 0 && c < (1 << 20));
+        vs::set_current_frame(&mut s.sync_layer, c);
+        // the previous tick may have stalled on this very frame: it is then already the last saved one
+        let stalled_before: bool = kani::any();
+        vs::set_last_saved(&mut s.sync_layer, if stalled_before { c } else { c - 1 });
+        let fi: Frame = kani::any();
+        kani::assume(fi >= NULL_FRAME && fi < c);
+        let df: Frame = kani::any();
+        kani::assume(df >= NULL_FRAME && df < c);
+        crate::input_queue::verif_q::set_fi(vs::queue_mut(&mut s.sync_layer, 1), fi);
+        s.disconnect_frame = df;
+        let confirmed: Frame = kani::any();
+        ADJ_CALLS.store(0, Ordering::Relaxed);
+        let mut reqs: Vec<GgrsRequest<CfgRL>> = Vec::with_capacity(4);
+        s.handle_rollback_and_save(confirmed, &mut reqs);
+        let want = if fi == NULL_FRAME { df } else if df == NULL_FRAME || fi < df { fi } else { df };
+        if want == NULL_FRAME {
+            assert!(ADJ_CALLS.load(Ordering::Relaxed) == 0);
+            assert!(s.disconnect_frame == df);
+        } else {
+            assert!(ADJ_CALLS.load(Ordering::Relaxed) == 1);
+            assert!(ADJ_FIRST.load(Ordering::Relaxed) == want, "C01: rollback starts at the earliest wrong frame");
+            assert!(ADJ_CONF.load(Ordering::Relaxed) == confirmed);
+            assert!(s.disconnect_frame == NULL_FRAME);
+        }
+        assert!(reqs.len() == 1, "C02: the current frame is saved on every call");
+        match &reqs[0] {
+            GgrsRequest::SaveGameState { frame, .. } => assert!(*frame == c),
+            _ => assert!(false, "expected SaveGameState"),
+        }
+        assert!(s.sync_layer.last_saved_frame() == c);
+        kani::cover!(stalled_before && want == NULL_FRAME, "second call on the same frame");
+        kani::cover!(fi != NULL_FRAME && df != NULL_FRAME && df < fi, "disconnect frame earlier than the misprediction");
+        core::mem::forget(reqs);
+        core::mem::forget(s);
+    }
+
+    /// advance_rollback_frame's prediction gate (C04), the rollback and the local-input registration
+    /// being stubbed: the last confirmed frame becomes min(confirmed_frame(), current[, last saved if
+    /// sparse]); a NEW frame is simulated iff current - that frame < max_prediction (nothing
+    /// confirmed yet counts as frame -1 being confirmed: at most max_prediction frames 0..w-1 are
+    /// simulated before the first remote input) - so the session never runs more than the window
+    /// beyond the newest frame for which it holds every player's input, however long it is starved.
+    #[kani::proof]
+    #[kani::unwind(6)]
+    #[kani::stub(alloc::fmt::format, stub_format)]
+    #[kani::stub(crate::sessions::p2p_session::P2PSession::handle_rollback_and_save, stub_noop_rollback)]
+    #[kani::stub(crate::sessions::p2p_session::P2PSession::send_confirmed_inputs_to_spectators, stub_noop_spectators)]
+    #[kani::stub(crate::sessions::p2p_session::P2PSession::register_local_inputs, stub_register)]
+    fn pc_prediction_gate() {
+        let w: usize = kani::any();
+        kani::assume(w >= 1 && w <= 3);
+        let sparse: bool = kani::any();
+        let mut s = mk_session_noep::<CfgRL>(3, sparse, 0, DesyncDetection::Off);
+        s.max_prediction = w; // (saved-state ring sized for 3; the gate only reads max_prediction)
+        let c: Frame = kani::any();
+        kani::assume(c >= 0 && c < (1 << 20));
+        let l0: Frame = kani::any();
+        let l1: Frame = kani::any();
+        kani::assume(l0 >= c - 1 && l0 <= c && l1 >= NULL_FRAME && l1 <= c + 2 && l0 >= NULL_FRAME);
+        let saved: Frame = kani::any();
+        kani::assume(saved >= NULL_FRAME && saved <= c);
+        vs::set_current_frame(&mut s.sync_layer, c);
+        vs::set_last_saved(&mut s.sync_layer, saved);
+        s.local_connect_status[0].last_frame = l0;
+        s.local_connect_status[1].last_frame = l1;
+        let confirmed = if l0 < l1 { l0 } else { l1 };
+        let mut reqs: Vec<GgrsRequest<CfgRL>> = Vec::with_capacity(4);
+        s.advance_rollback_frame(&mut reqs);
+        let mut lc = confirmed;
+        if sparse && saved < lc {
+            lc = saved;
+        }
+        if c < lc {
+            lc = c;
+        }
+        assert!(vs::last_confirmed(&s.sync_layer) == lc);
+        let ahead = if lc == NULL_FRAME { c } else { c - lc };
+        let advanced = s.sync_layer.current_frame() == c + 1;
+        assert!(advanced == (ahead < w as Frame), "C04: simulate a new frame iff inside the prediction window");
+        assert!(advanced || s.sync_layer.current_frame() == c, "C04: a stalled call leaves the frame unchanged");
+        assert!(reqs.len() == if advanced { 1 } else { 0 });
+        if advanced {
+            assert!(matches!(&reqs[0], GgrsRequest::AdvanceFrame { .. }));
+            // C04 as stated: never more than the window beyond the newest frame with every player's input
+            // (dense saving; with sparse saving the bound is relative to the last saved confirmed frame)
+            if !sparse {
+                assert!(c - confirmed <= w as Frame);
+            }
+        }
+        kani::cover!(!advanced && lc == NULL_FRAME, "starved from the very start: stalls at frame w");
+        kani::cover!(!advanced && lc >= 0, "starved mid-game");
+        kani::cover!(advanced && ahead == w as Frame - 1, "last frame inside the window");
+        core::mem::forget(reqs);
+        core::mem::forget(s);
+    }
 }
